@@ -62,9 +62,18 @@ def run_shards(ctx, binary, mode, cases, shards, extra=None, timeout=1500):
                              stdout=lg, stderr=subprocess.STDOUT, env=env, cwd=ctx.tmp)
         procs.append((p, t, r, lg))
     traces, results = [], []
-    for p, t, r, lg in procs:
+    for s, (p, t, r, lg) in enumerate(procs):
         rc = p.wait()
         lg.close()
+        for again in range(2):
+            if rc == 0:
+                break
+            # a shard that died (e.g. a port picked a moment ago was taken meanwhile) is started again: nothing is judged
+            vlib.log("[driver] c11 -mode %s shard %d died rc=%s, restarting\n%s" % (mode, s, rc, vlib.tail(lg.name, 6)))
+            with open(lg.name, "a") as lg2:
+                rc = subprocess.run(["timeout", "-k", "10", str(timeout), binary, "-mode", mode, "-cases", cpath, "-trace", t,
+                                     "-results", r, "-shard", str(s), "-shards", str(shards)] + (extra or []),
+                                    stdout=lg2, stderr=subprocess.STDOUT, env=env, cwd=ctx.tmp).returncode
         if rc != 0:
             raise vlib.Inconclusive("driver c11 -mode %s shard died rc=%s\n%s" % (mode, rc, vlib.tail(lg.name, 15)))
         traces.append(t)
